@@ -12,7 +12,7 @@ RULE = (
     "cases = RAR configurations: generator kind (ODE, stationary, space-time with cartesian batches; dim 1 and 2), "
     "start_iter 0..6, update_every 1..4, n_start / nt_start 1..8 (equal or different), store sizes up to start+14 so "
     "that capacity is sometimes exhausted inside the run, candidate sizes >= selected sizes 1..4, up to 25 iterations; "
-    "analytic network and single-component equation. The generator is driven as jinns.solve drives it (init_rar, then "
+    "analytic network and single-component equation, or (ODE / stationary) a system loss with 1..2 unknowns and 1..2 equations. The generator is driven as jinns.solve drives it (init_rar, then "
     "per iteration get_batch + trigger_rar) and observed after every iteration; a second sub-check runs jinns.solve "
     "end to end and inspects the returned generator. Oracle: python model - a step happens at iteration i iff "
     "i >= start and (i-start) % update_every == 0 and every refined axis has room for a full set; after J steps "
@@ -57,7 +57,7 @@ def check_iter(cfg, model):
 
 def run_case(case):
     cfg = case["cfg"]
-    labels = [cfg["kind"], f"d{cfg['dim']}"]
+    labels = [cfg["kind"], f"d{cfg['dim']}"] + (["system-loss"] if cfg.get("system") else [])
     model = model_schedule(cfg, cfg["iters"])
     g, records, r = drive(cfg, on_iter=check_iter(cfg, model))
     if r is not None:
